@@ -47,6 +47,7 @@ theorem matAvg_comm (A B : List (List K)) : matAvg A B = matAvg B A := by
       simp only [List.zipWith_cons_cons, ih B, List.cons.injEq, and_true]
       apply List.zipWith_comm_of_comm
       intro x y
+      unfold Rsa.Gen.C02.pairCov
       rw [add_comm]
 
 /-- the precision used for the pair of folds (m, n): inverse of the average of the two
@@ -60,11 +61,42 @@ theorem pairPrec_comm (inv : List (List K) → List (List K)) (prec : F → List
   unfold pairPrec
   rw [matAvg_comm]
 
+/-- members of `pairsOf` of a duplicate-free list are pairs of distinct elements -/
+theorem pairsOf_ne {β : Type} {l : List β} (hl : l.Nodup) {p : β × β} (hp : p ∈ pairsOf l) :
+    p.1 ≠ p.2 := by
+  induction l with
+  | nil => simp [pairsOf] at hp
+  | cons x xs ih =>
+    rw [List.nodup_cons] at hl
+    simp only [pairsOf, List.mem_append, List.mem_map] at hp
+    rcases hp with ⟨y, hy, rfl⟩ | hp
+    · intro e
+      have e' : x = y := e
+      exact hl.1 (e' ▸ hy)
+    · exact ih hl.2 hp
+
+/-- two distinct members of a list form a pair of `pairsOf` in one of the two orders -/
+theorem mem_pairsOf_or {β : Type} {l : List β} {a b : β} (ha : a ∈ l) (hb : b ∈ l) (hab : a ≠ b) :
+    (a, b) ∈ pairsOf l ∨ (b, a) ∈ pairsOf l := by
+  induction l with
+  | nil => simp at ha
+  | cons x xs ih =>
+    simp only [pairsOf, List.mem_append, List.mem_map, Prod.mk.injEq]
+    rcases List.mem_cons.mp ha with rfl | ha'
+    · rcases List.mem_cons.mp hb with rfl | hb'
+      · exact absurd rfl hab
+      · exact Or.inl (Or.inl ⟨b, hb', rfl, rfl⟩)
+    · rcases List.mem_cons.mp hb with rfl | hb'
+      · exact Or.inr (Or.inl ⟨a, ha', rfl, rfl⟩)
+      · rcases ih ha' hb' with h | h
+        · exact Or.inl (Or.inr h)
+        · exact Or.inr (Or.inr h)
+
 /-- the per-fold-precision branch in closed form -/
 theorem foldPrecAlgo_closed (inv : List (List K) → List (List K)) (rm : Bool) (P : Nat)
     (prec : F → List (List K)) (D : List (Obs L F K)) {R : Nat} (hbal : Balanced D R)
     (hM : 2 ≤ (sortedDistinct (D.map (·.fold))).length)
-    (hsym : ∀ m ∈ sortedDistinct (D.map (·.fold)), ∀ n ∈ sortedDistinct (D.map (·.fold)),
+    (hsym : ∀ m ∈ sortedDistinct (D.map (·.fold)), ∀ n ∈ sortedDistinct (D.map (·.fold)), m ≠ n →
       ∀ k l, k < P → l < P → pairPrec inv prec m n k l = pairPrec inv prec m n l k) :
     foldPrecAlgo inv rm P ((sortedDistinct (D.map (·.fold))).map prec) D
       = (pairsOf (sortedDistinct (D.map (·.cond)))).map (fun ab =>
@@ -127,7 +159,7 @@ theorem foldPrecAlgo_closed (inv : List (List K) → List (List K)) (rm : Bool) 
     intro p hp
     obtain ⟨hp1, hp2⟩ := mem_pairsOf hp
     rw [pairPrec_comm inv prec p.2 p.1,
-      kern_symm P (pairPrec inv prec p.1 p.2) (hsym p.1 hp1 p.2 hp2)
+      kern_symm P (pairPrec inv prec p.1 p.2) (hsym p.1 hp1 p.2 hp2 (pairsOf_ne hnd hp))
         (vsubF (foldMean (xT rm P) D ab.1 p.2) (foldMean (xT rm P) D ab.2 p.2))]
     ring
   rw [lsum_congr hg]
